@@ -66,7 +66,7 @@ def gen_cases(tier, seed):
         for h in hists:
             for fh in fhs:
                 yield dict(kind="stack", members=sub, hist=h, fh=fh, fam=seed % 2)
-    for k in range(5):
+    for k in range(7):
         for h in hists:
             for fh in qfh:
                 yield dict(kind="nest", which=k, hist=h, fh=fh, fam=seed % 2)
@@ -103,6 +103,8 @@ def _program(case):
         ["mux", [["ens", "max", MEMBERS[:2]], MEMBERS[2]], 0],
         ["stack", [["ttf", [["detrend", 1]], MEMBERS[0]], MEMBERS[1]], "rec"],
         ["ttf", [["rect", "T", 3.0, -2.0]], ["mux", MEMBERS, 1]],
+        ["ttf", [["ttfT", [["log"], ["deseason", 2, "multiplicative"]]]], MEMBERS[0]],
+        ["ttf", [["detrend", 1], ["ttfT", [["boxcox"], ["rect", "T", 2.0, 5.0]]]], MEMBERS[2]],
     ][case["which"]]
 
 
@@ -119,7 +121,11 @@ class Manual:
         if k == "ens":
             self.parts = [Manual(s) for s in spec[2]]
         elif k == "ttf":
-            self.ts = [fmenu.build_t(s) for s in spec[1]]
+            # a pipeline used as a transformer step denotes the flat chain of its transformers
+            flat = []
+            for t in spec[1]:
+                flat.extend(t[1] if t[0] == "ttfT" else [t])
+            self.ts = [fmenu.build_t(s) for s in flat]
             self.f = Manual(spec[2])
         elif k == "mux":
             self.f = Manual(spec[1][spec[2]])
